@@ -103,12 +103,15 @@ theorem stmtSend_outs (d : Dev) (a : Action) (o : Oracle) (e : ExecCtx) (fmt : B
     split
     · intro x hx; simp at hx; subst hx; trivial
     · rename_i s _
-      have ht : OutsClean ([Out.sent s] ++ (if a.telemetry = true then teleMem a.clientId "send(dev): '" s else [])) := by
+      have ht : OutsClean ([Out.sent s] ++ (if toOverrun d.toBuf s = true then [] else
+          if a.telemetry = true then teleMem a.clientId "send(dev): '" s else [])) := by
         apply OutsClean.append
         · intro x hx; simp at hx; subst hx; trivial
         · split
-          · exact teleMem_outs _ _ _ send_pre_clean
           · exact .nil
+          · split
+            · exact teleMem_outs _ _ _ send_pre_clean
+            · exact .nil
       split <;> exact ht
   · split <;> exact .nil
 
